@@ -315,12 +315,17 @@ def run(tier, seed, work):
     for u in lund[:10]:
         r.notes.append("note: limb obligation undecided: " + u)
     common.floor_check(r, "limb-arithmetic obligations proved", lcnt["proved"], LIMB_FLOOR[tier])
+    # conversions (shared with C04): to a wider multi-limb type, from and to built-in integers
+    from . import C04 as c04
+    csrc, cplan = c04.limb_plan(tier)
+    cplan = [j for j in cplan if not j[0].startswith("limb/finer")]
+    ccnt = common.limb_block(r, work, "c10conv", csrc, cplan, seed, len(cplan), "multi-limb conversion obligations proved")
     good = [f for f in F if f.status == "proved"]
     rng = random.Random(seed)
     r.coverage = {
         "explanation": "Type-level clauses and the sign discipline G1-G4 of the signed multi-limb type (path rule over the four sign valuations on -O1 -fno-inline IR): multi-limb storage (limb type, signedness, smallest sufficient width incl. the sign bit), numeric_limits/digits/signedness, result digits (max) and signedness (either) of the binary operators, shifts and unary operators keep the operand's type, comparisons return bool. The limb arithmetic itself (values) is NOT decided.",
         "evaluations": len(F), "distinct_nontrivial": nf["proved"], "rule": "non-trivial = proved type fact (clang value equal to the oracle's and confirmed by g++ static_assert)",
-        "limb_types": ltypes, "limb_obligations_proved": lcnt["proved"], "limb_obligations_refuted": lcnt["refuted"], "limb_obligations_undecided": lcnt["undecided"],
+        "limb_types": ltypes, "conversion_obligations_proved": ccnt["proved"], "limb_obligations_proved": lcnt["proved"], "limb_obligations_refuted": lcnt["refuted"], "limb_obligations_undecided": lcnt["undecided"],
         "sign_rule_instantiations": ninst, "sign_rule_G1_is_neg": done["G1"], "sign_rule_G2_division": done["G2"], "sign_rule_G3_compare": done["G3"], "sign_rule_G4_shift_fill": done["G4"],
         "type_facts": len(F), "type_facts_proved": nf["proved"], "type_facts_refuted": nf["refuted"], "rejected_by_library": nf["rejected"],
         "samples": [{"key": f.key, "expr": f.expr, "value": f.value} for f in rng.sample(good, min(8, len(good)))], "exhaustive": False,
